@@ -69,8 +69,12 @@ def commit (c : Json) : Json :=
     let code := getNat c "code"
     let j := k.toJson
     let rv := Hashing.revealValue sha2 j code
+    -- the same key material under another nonce is another key
+    let twin := { k with nonce := getStr c "twin_nonce" }
     .obj [("commitment", optStr (Hashing.commitment sha2 j code)), ("reveal", optStr rv),
           ("from_reveal", optStr (Hashing.commitmentFromReveal sha2 (getStr c "rv"))),
-          ("from_own_reveal", optStr (rv.bind (Hashing.commitmentFromReveal sha2)))]
+          ("from_own_reveal", optStr (rv.bind (Hashing.commitmentFromReveal sha2))),
+          ("twin_commitment", optStr (Hashing.commitment sha2 twin.toJson code)),
+          ("twin_reveal", optStr (Hashing.revealValue sha2 twin.toJson code))]
 
 end Sidetree.Drv
